@@ -82,6 +82,14 @@ theorem All3.out {α β γ} {P : α → β → γ → Prop} {C : γ → Prop} (h
       · exact hp _ _ _ h
       · exact t.out hp z hz
 
+theorem All3.mid {α β γ} {P : α → β → γ → Prop} {B : β → Prop} (hp : ∀ a b c, P a b c → B b) :
+    ∀ {a : List α} {b : List β} {c : List γ}, All3 P a b c → ∀ y ∈ b, B y
+  | _, _, _, .nil, y, hy => by cases hy
+  | _, _, _, .cons h t, y, hy => by
+      rcases List.mem_cons.mp hy with rfl | hy
+      · exact hp _ _ _ h
+      · exact t.mid hp y hy
+
 theorem All3.getD {α β γ} {P : α → β → γ → Prop} (da : α) (db : β) (dc : γ) : ∀ {a : List α} {b : List β} {c : List γ}, All3 P a b c →
     ∀ i, i < a.length → P (a.getD i da) (b.getD i db) (c.getD i dc)
   | _, _, _, .nil, i, hi => by simp at hi
